@@ -1432,6 +1432,10 @@ class SuccessionDiagram:
 
         node["expanded"] = True
         node["skipped"] = True
+        # Attractor data computed while the node had no successors is no longer valid.
+        node["attractor_seeds"] = None
+        node["attractor_candidates"] = None
+        node["attractor_sets"] = None
 
         if self.config["debug"]:
             print(f"[{node_id}] Added {len(minimal_traps)} skip edges.")
@@ -1480,6 +1484,10 @@ class SuccessionDiagram:
 
             node["skipped"] = True
             node["expanded"] = True
+            # Attractor data computed while the node had no successors is no longer valid.
+            node["attractor_seeds"] = None
+            node["attractor_candidates"] = None
+            node["attractor_sets"] = None
             skipped_nodes += 1
 
             # At this point, all minimal traps must be expanded,
